@@ -1,4 +1,4 @@
-\* generation: every transition of the N0 model printed once (run with one worker)
+\* generation: every transition of the N0 model printed once (PrintT lines stay whole with several workers; the driver sorts them)
 SPECIFICATION Spec
 CONSTANTS
   Blocks <- N0Blocks
@@ -16,4 +16,6 @@ CONSTANTS
   Observing = TRUE
 VIEW view
 ACTION_CONSTRAINT GenLog
+INVARIANTS TypeOK StateIsMainChain NoStalePooled NoDupSlot ReadyRunsGapFree NoPooledTxOnMainChain ExecutedNoncesSequential NoHashExecutedTwice ProducedBlockIsValid
+PROPERTIES ReturnedToPool PoolChangesExplained NoChangeWithoutNewBest
 CHECK_DEADLOCK FALSE
